@@ -674,6 +674,19 @@ func stripOAIGenForRef(opts *FlattenOpts, k string, r *newRef) (bool, error) {
 	debugLog("removing definition %s", path.Base(r.path))
 	delete(opts.Swagger().Definitions, path.Base(r.path))
 
+	// rewrite any $ref pointing inside the removed definition: its target has moved to the first parent
+	for kk, v := range New(opts.Swagger()).references.allRefs {
+		if !strings.HasPrefix(v.String(), r.path+"/") {
+			continue
+		}
+
+		debugLog("found a $ref inside a removed definition: %s points to %s", kk, v.String())
+		if err := replace.UpdateRef(opts.Swagger(), kk,
+			spec.MustCreateRef(pr[0]+strings.TrimPrefix(v.String(), r.path))); err != nil {
+			return false, err
+		}
+	}
+
 	// propagate changes in ref index for keys which have this one as a parent
 	for kk, value := range opts.flattenContext.newRefs {
 		if kk == k || !value.isOAIGen || value.resolved {
